@@ -18,7 +18,7 @@ REG_POOL = [0, 1, 0xFFFFFFFFFFFFFFFF, 0x8000000000000000, 0x7FFFFFFFFFFFFFFF, 0x
 
 RULE = ("Hypothesis generates switch scripts: 2-8 contexts (index 0 = the driving pthread) with stack sizes from {1 KiB .. 1 MiB, odd sizes, non-multiples of 16 and of the page size}, "
         "1-40 switches whose targets are any other context (A->B->A, chains, switching into fresh contexts, back to the thread), about one switch in seven made with 1-40 further 4 KiB "
-        "pattern-filled frames live on the stack (clamped to the stack size for fixed stacks; a split stack is then suspended on a later segment than it was created with), context objects placed in zeroed or in pattern-filled memory, six generated 64-bit values per switch planted into "
+        "pattern-filled frames live on the stack (clamped to the stack size for fixed stacks; a split stack is then suspended on a later segment than it was created with), context objects placed in zeroed or in pattern-filled memory, start arguments that are small integers or values with bit 31 / bit 63 / high halves set, six generated 64-bit values per switch planted into "
         "rbx, rbp, r12-r15 by an assembly shim, and optionally a second pthread that resumes the contexts the first one suspended; every script runs on all six builds of "
         "fiber_context.c (split|mmap|malloc stacks x assembly|ucontext switching). Oracle: registers, rsp and a 16-word stack frame on resumption equal those at suspension; a fresh "
         "context gets its argument in rdi, rsp = 8 (mod 16) at entry and inside its own stack; stacks pairwise disjoint; destroy releases each stack "
@@ -44,7 +44,8 @@ def script(draw, tier):
         cur = tgt
     phase2 = draw(st.one_of(st.none(), st.integers(1, n))) if n >= 2 else None
     dirty = draw(st.sampled_from([0, 0, 0, 0xA5, 0xFF, 0x01]))
-    return {"nctx": nctx, "sizes": sizes, "steps": steps, "phase2": phase2, "dirty": dirty}
+    pbase = draw(st.sampled_from([0, 0, 0x80000000, 0xfffffff0, 0x7e00c0000000, 0x8000000000000000, 0xffffffff00000000]))
+    return {"nctx": nctx, "sizes": sizes, "steps": steps, "phase2": phase2, "dirty": dirty, "parambase": pbase}
 
 
 def render(sc):
@@ -55,6 +56,8 @@ def render(sc):
         lines.append("phase2 %d" % sc["phase2"])
     if sc.get("dirty"):
         lines.append("dirty %d" % sc["dirty"])
+    if sc.get("parambase"):
+        lines.append("parambase %x" % sc["parambase"])
     for i, (tgt, regs, depth) in enumerate(sc["steps"]):
         lines.append("step %d %s" % (tgt, " ".join("%x" % r for r in regs)))
         if depth:
